@@ -411,6 +411,24 @@ pub fn corpus(thorough: bool) -> Vec<DetCase> {
         insts: vec![vec![U8, U16], vec![Ty::Named(G_N, vec![]), U8]],
     };
     regs.push(("D-generic both params unused".into(), RegSrc::Prog(g2.program())));
+    // two recursive roots that reach two different instantiations of ONE generic definition: the
+    // recursive registrations meet in one path-keyed entry
+    {
+        let defs = vec![
+            Def::strukt(&["p", "a"], "N", &[], named(vec![("v", U32)])),
+            Def::strukt(&["p", "g"], "D", &["T"], named(vec![("t", Ty::Param(0))])),
+            Def::strukt(&["p", "l"], "Left", &[], named(vec![("w", Ty::Named(1, vec![U8]))])),
+            Def::strukt(&["p", "l"], "Right", &[], named(vec![("w", Ty::Named(1, vec![U32])), ("n", Ty::Named(0, vec![]))])),
+            Def::strukt(&["p", "h"], "Host", &[], named(vec![("l", Ty::Named(2, vec![])), ("r", Ty::Named(3, vec![]))])),
+        ];
+        regs.push((
+            "two recursive roots meeting in one generic".into(),
+            RegSrc::Prog(Program {
+                defs,
+                roots: vec![Ty::Named(4, vec![])],
+            }),
+        ));
+    }
     // chain metadata: the full Polkadot registry in the thorough tier; in the quick tier the first
     // single-id closure with 80..150 entries (the full registry costs ~1 s per run under the hooks)
     let full = crate::run::polkadot_registry();
@@ -448,6 +466,17 @@ pub fn corpus(thorough: bool) -> Vec<DetCase> {
                 if sn != "specific+recursive" {
                     continue;
                 }
+            }
+            if rn == "two recursive roots meeting in one generic" {
+                s.derives_for = vec![
+                    ("p::l::Left".into(), vec!["::z::FromLeft".into()], true),
+                    ("p::l::Right".into(), vec!["::z::FromRight".into()], true),
+                    ("p::g::D".into(), vec!["::z::Own".into()], false),
+                ];
+                s.attrs_for = vec![
+                    ("p::l::Left".into(), vec!["#[left]".into()], true),
+                    ("p::l::Right".into(), vec!["#[right]".into()], true),
+                ];
             }
             out.push(DetCase {
                 reg: r.clone(),
